@@ -40,7 +40,8 @@ Section Mono.
     { destruct (expr_eqb b' b && expr_eqb e' e); op. }
     destruct sp; [|exact GEN]. destruct sd as [|[k v] [|p2 sd']]; try exact GEN; [|destruct k; exact GEN].
     destruct k; try exact GEN. destruct k2; try exact GEN;
-      (destruct (expr_eqb k1 b'); [|exact GEN]; rb; [op|]; destruct x0; first [exact GEN | op]).
+      (destruct (expr_eqb k1 b'); [|exact GEN]; rb; [op|]; destruct x0; first [exact GEN | op
+        | (match goal with |- context [match ?n with NInt _ => _ | _ => _ end] => destruct n end; first [exact GEN | op])]).
   Qed.
 
   Section Node.
